@@ -7,7 +7,7 @@
 
    stdin: any number of cases
        case <id> <raw|tiff|tiffjson|trash> <directory>
-       c <tail> <entries>            create script (see sysshim.c); optional
+       c <tail> <entries>            create script (see sysshim.c: o f l, and t s a r b v = ftruncate fails); optional
        w <tail> <entries...>         write script; optional
        meta <json|->                 external metadata used by every `set`; optional
        set <uri> | start | append <hex of the packet> | stop | envopen | envclose <k>
